@@ -307,9 +307,33 @@ def clause_d(ctx: Context, idx) -> None:
     receives a `normalization` (computed from the outcome's probability) or is normalised before it is handed on."""
     n = 0
 
+    def scaling_params(target: FuncInfo) -> set:
+        """parameters of the callee that multiply the amplitudes it copies into the new state (`p * state.state_vector[i]`): a normalisation
+        by role, whatever the parameter is called"""
+        ps = set(target.all_params())
+        out = set()
+        amp = lambda e_: any(isinstance(x_, ast.Attribute) and x_.attr.lstrip("_") in ("state_vector", "density_matrix") for x_ in ast.walk(e_))  # noqa: E731
+        for st_ in ast.walk(target.node):
+            if not isinstance(st_, (ast.Assign, ast.AugAssign, ast.Return, ast.Expr)):
+                continue
+            stored_amp = isinstance(st_, (ast.Assign, ast.AugAssign)) and any(amp(t_) for t_ in (st_.targets if isinstance(st_, ast.Assign) else [st_.target]))
+            for b_ in ast.walk(st_):
+                if isinstance(b_, ast.BinOp) and isinstance(b_.op, (ast.Mult, ast.Div)):
+                    for a_, o_ in ((b_.left, b_.right), (b_.right, b_.left)):
+                        if isinstance(a_, ast.Name) and a_.id in ps and (amp(o_) or stored_amp):
+                            out.add(a_.id)
+        return out
+
     def normalising(fn_: FuncInfo, call: ast.Call, depth: int = 0) -> Optional[bool]:
         if any(k.arg == "normalization" for k in call.keywords):
             return True
+        if isinstance(call.func, ast.Name):
+            r0 = idx.resolve_name(fn_.module, call.func.id)
+            if isinstance(r0, FuncInfo):
+                sp_ = scaling_params(r0)
+                pos_ = [a.arg for a in r0.node.args.args]
+                if any(k.arg in sp_ for k in call.keywords) or any(i_ < len(pos_) and pos_[i_] in sp_ for i_ in range(len(call.args))):
+                    return True
         name = dotted(call.func) or ""
         last = name.split(".")[-1]
         target = None
